@@ -3,6 +3,7 @@ package main
 // Path-sensitive reachability with per-path constant tracking of boolean phis (a per-path SCCP restricted to bool phis).
 
 import (
+	"go/token"
 	"strconv"
 	"go/constant"
 	"go/types"
@@ -64,6 +65,42 @@ func evalHelperBool(h *ssa.Function, hval map[string]int64) (res, known bool) {
 		return false, false
 	}
 	return seenT, true
+}
+
+// evalHelperNil: whether result idx of a same-package helper is nil under a valuation of its parameters: known only
+// when every feasible return agrees (nil constant, or a value that is certainly non-nil).
+func evalHelperNil(h *ssa.Function, idx int, hval map[string]int64) (isNil, known bool) {
+	if psHelperDepth > 2 || len(h.Blocks) == 0 {
+		return false, false
+	}
+	psHelperDepth++
+	saved := lastPsEdges
+	defer func() { psHelperDepth--; lastPsEdges = saved }()
+	seenNil, seenNon, unknown := false, false, false
+	reach := psReachValV(h, []*ssa.BasicBlock{h.Blocks[0]}, nil, hval, nil)
+	for _, b := range h.Blocks {
+		r, ok := b.Instrs[len(b.Instrs)-1].(*ssa.Return)
+		if !ok || !reach[b] || idx >= len(r.Results) {
+			continue
+		}
+		rv := returnedValue(r, idx)
+		switch {
+		case isNilConst(rv):
+			seenNil = true
+		case definitelyNonNilErr(rv, b, 0):
+			seenNon = true
+		default:
+			if _, isAlloc := rv.(*ssa.Alloc); isAlloc {
+				seenNon = true
+			} else {
+				unknown = true
+			}
+		}
+	}
+	if unknown || seenNil == seenNon {
+		return false, false
+	}
+	return seenNil, true
 }
 
 // psReachValV is psReachVal with a visitor called once per explored (block, environment) state; eval evaluates a
@@ -132,10 +169,44 @@ func psReachValV(fn *ssa.Function, starts []*ssa.BasicBlock, cut func(from *ssa.
 						return truth, true
 					}
 				}
+				// nil test of a same-package helper's result, the helper evaluated under the valuation
+				if (x.Op == token.EQL || x.Op == token.NEQ) && isNilConst(x.Y) {
+					var call *ssa.Call
+					idx := 0
+					switch y := x.X.(type) {
+					case *ssa.Call:
+						call = y
+					case *ssa.Extract:
+						call, _ = y.Tuple.(*ssa.Call)
+						idx = y.Index
+					}
+					if call != nil {
+						if h := call.Call.StaticCallee(); h != nil && h.Pkg != nil && h.Pkg == fn.Pkg && len(h.Blocks) > 0 && h != fn {
+							hval := map[string]int64{}
+							for i, a := range call.Call.Args {
+								if k, ok := a.(*ssa.Const); ok && k.Value != nil && k.Value.Kind() == constant.Int {
+									hval["p"+strconv.Itoa(i)] = k.Int64()
+									continue
+								}
+								if v, ok := val[desc(a)]; ok {
+									hval["p"+strconv.Itoa(i)] = v
+								}
+							}
+							if len(hval) > 0 {
+								if isNil, known := evalHelperNil(h, idx, hval); known {
+									return isNil == (x.Op == token.EQL), true
+								}
+							}
+						}
+					}
+				}
 			}
 		case *ssa.Call:
 			// a same-package boolean helper whose arguments are all valued
 			if val == nil {
+				return false, false
+			}
+			if b, isB := x.Type().Underlying().(*types.Basic); !isB || b.Kind() != types.Bool {
 				return false, false
 			}
 			h := x.Call.StaticCallee()
